@@ -122,6 +122,7 @@ func checkC10(e *Engine, r *Report) {
 			ok := len(ks) == 1 && resolveLocal(ks[0].Common().Args[0]) == ssa.Value(f.Params[2]) && resolveLocal(ks[0].Common().Args[1]) == ssa.Value(f.Params[3])
 			r.Check(ok, "allowance key order › "+fnKey(f), e.Pos(f.Pos()), "key(owner, spender)", "the allowance key is not built from (owner, spender) in that order: the setter and the getter address different records")
 		}
+		e.checkKeyBuilders(r, pkgCpcTypes, []string{"Erc20CustomPrecompiledContractAllowanceKey"}, "two (owner, spender) pairs share one allowance record: a spender can draw on an allowance approved for somebody else")
 	})
 
 	r.Rule("R2", "MUST-PASS+PROVENANCE", "every call of the mover transfer(ctx, from, to, amount, …) passes as `from` either caller.Address() itself, or a value v with the call dominated by the true edge of v == caller.Address() or by the nil-error edge of spendAllowance(ctx, v, caller.Address(), amount) with the same amount", 4, func() {
